@@ -93,8 +93,14 @@ Definition init_noop : st :=
   mkSt [] [] true true false (fun _ => O) (fun _ => O) (fun _ => 0%Z) [] [] [] [] [] (fun _ => []) (fun _ => O) (fun _ => O)
        (fun _ => O) O O O.
 
+(* An fsFile without a handle (ff.f == nil: generated directory index, file compressed into memory over an fs.FS)
+   is an `Open` with a negative size: it is cached, counted and released like any other, but Release closes nothing
+   and its readers are fsSmallFileReaders over ff.dirIndex. *)
+Definition is_virtual (s : st) (f : fid) : bool := (fsize s f <? 0)%Z.
+
 (* fsFile.isBig *)
 Definition is_big (cf : cfg) (s : st) (f : fid) : bool :=
+  if is_virtual s f then false else
   if osfs cf then (fsize s f >? maxSmallFileSize)%Z else true.
 
 (* addFileToReleaseNolock *)
